@@ -199,9 +199,20 @@ def check(case, rec):
             res = outcome(lambda: compute_features(x.copy(), fs, fr, **model.kwargs()))
             if res[0] != 'ok':
                 continue
+            if op[1] % 3 == 1:
+                # a table that went through the user's hands: extra columns, some named like DataFrame attributes
+                res[1]['index'] = np.arange(len(res[1]))[::-1].copy()
+                res[1]['size'] = 7.5
+                res[1]['Label'] = 3
             obj.load(res[1], x, fs, fr)
             if obj.df_features is not res[1]:
                 raise Violation('load', tag)
+            for col_ in ('index', 'size', 'Label'):
+                if col_ in res[1].columns:
+                    got_ = outcome(lambda: getattr(obj, col_))
+                    if got_[0] != 'ok' or not isinstance(got_[1], np.ndarray) or not np.array_equal(got_[1], res[1][col_].values):
+                        raise Violation('attribute-access', '%s: attribute %r of the loaded table gives %s' % (tag, col_, str(got_[1])[:80]))
+                    read_before.add(col_)
             event_since_fit = True
         elif kind == 'clone':
             # the object is copied (copy.deepcopy / pickle round trip, e.g. to ship it to a worker or keep a checkpoint) and the
@@ -276,6 +287,9 @@ def check(case, rec):
             cols = list(obj.df_features.columns)
             burst_cols = [c for c in ('is_burst', 'amp_consistency', 'period_consistency', 'burst_fraction') if c in cols]
             col = burst_cols[op[1] % len(burst_cols)] if (op[1] % 3 == 0 and burst_cols) else cols[op[1] % len(cols)]
+            extra_cols = [c_ for c_ in ('index', 'size', 'Label') if c_ in cols]
+            if extra_cols and op[1] % 2 == 1:
+                col = extra_cols[op[1] % len(extra_cols)]
             read_before.add(col)
             got = getattr(obj, col)
             if not (isinstance(got, np.ndarray) and (ref.same_float(got, obj.df_features[col].values) if got.dtype.kind == 'f'
@@ -323,8 +337,10 @@ def st_settings(draw, band):
     method = draw(st.sampled_from(['cycles', 'amp']))
     s = {'center': draw(st.sampled_from(['peak', 'trough'])), 'method': method, 'return_samples': draw(st.sampled_from([True, True, False]))}
     if method == 'cycles':
-        kind = draw(st.sampled_from(['none', 'full', 'short', 'mixed']))
-        if kind != 'none':
+        kind = draw(st.sampled_from(['none', 'full', 'short', 'mixed', 'empty']))
+        if kind == 'empty':
+            s['th'] = {}                  # an explicit empty dict: "the detector's defaults", with nothing a reduction could lower
+        elif kind != 'none':
             vals = {k: draw(st.sampled_from([0.0, 0.2, 0.4, 0.6])) for k in CYC_SHORT}
             if kind == 'full':
                 th = {k + '_threshold': v for k, v in vals.items()}
@@ -442,7 +458,7 @@ def check_group(case, rec):
                 bg.center_extrema = new_c
                 m.center = new_c
             else:
-                new_th = dict(m.th)
+                new_th = dict(m.th) or dict(default_thresholds(m.method))      # an empty settings dict is re-bound to a spelled-out one
                 keys = [k for k in new_th if k != 'min_n_cycles'] or list(new_th)
                 key = keys[op[2] % len(keys)]
                 new_th[key] = [0.0, 0.3, 0.6][op[2] % 3] if key != 'min_n_cycles' else 1 + op[2] % 3
